@@ -2,6 +2,7 @@ import Lean.Data.Json
 import KojenVerif.Model.Pipeline
 import KojenVerif.Model.DocCheck
 import KojenVerif.Model.OutStage
+import KojenVerif.Model.Conn
 /-
   Line-protocol driver: one JSON object per input line, one JSON object per output line.
   Run with `lake env lean --run Driver/Main.lean`.  The harness pipes the same inputs to the
@@ -74,6 +75,20 @@ def jOptStr : Option Str → Json
   | some s => jStr s
   | none => Json.null
 
+def hexVal (c : Char) : Nat :=
+  if '0' ≤ c ∧ c ≤ '9' then c.toNat - '0'.toNat
+  else if 'a' ≤ c ∧ c ≤ 'f' then c.toNat - 'a'.toNat + 10
+  else if 'A' ≤ c ∧ c ≤ 'F' then c.toNat - 'A'.toNat + 10 else 0
+
+def unhexL : List Char → List Nat
+  | a :: b :: rest => (hexVal a * 16 + hexVal b) :: unhexL rest
+  | _ => []
+
+def unhex (s : String) : List Nat := unhexL s.toList
+
+def hexDigit (n : Nat) : Char := if n < 10 then Char.ofNat (48 + n) else Char.ofNat (87 + n)
+def toHex (b : List Nat) : String := String.ofList (b.flatMap (fun x => [hexDigit (x / 16 % 16), hexDigit (x % 16)]))
+
 def handle (j : Json) : Except String Json := do
   let cmd ← (← j.getObjVal? "cmd").getStr?
   match cmd with
@@ -134,6 +149,18 @@ def handle (j : Json) : Except String Json := do
       | .copymode p t => Json.arr #[Json.str "copymode", jStr p, jStr t]
       | .replace t p => Json.arr #[Json.str "replace", jStr t, jStr p]
     pure (Json.mkObj [("ops", Json.arr (ops.map enc).toArray)])
+  | "conn" => do
+    let p0 ← (← j.getObjVal? "p0").getNat?
+    let p1 ← (← j.getObjVal? "p1").getNat?
+    let raw ← getBool j "raw"
+    let chunks ← (← j.getObjVal? "chunks").getArr?
+    let cs ← chunks.toList.mapM (fun x => do pure (unhex (← x.getStr?)))
+    if raw then
+      pure (Json.mkObj [("raw", Json.arr ((Conn.feedRaw cs).map (fun b => Json.str (toHex b))).toArray)])
+    else
+      let r := Conn.feedAll ⟨p0, p1⟩ Conn.St.init cs
+      pure (Json.mkObj [("msgs", Json.arr (r.2.map (fun b => Json.str (toHex b))).toArray),
+                        ("buf", Json.str (toHex r.1.buf)), ("req", Json.num r.1.req)])
   | "split" => do
     let s ← getStr j "s"
     pure (Json.mkObj [("lines", jStrs (splitLines s))])
